@@ -713,6 +713,25 @@ func (s *Sim) rel(p string) string {
 	return p
 }
 
+// norm replaces the scratch root inside file contents (bookmarks.json holds absolute paths),
+// so that the event log does not depend on the name of the scratch directory.
+func (s *Sim) norm(b []byte) []byte {
+	if s.Root == "" {
+		return b
+	}
+	root := []byte(s.Root)
+	if bytes.Contains(b, root) {
+		b = bytes.ReplaceAll(b, root, []byte("$ROOT"))
+	}
+	// a truncated occurrence at the very end (what a torn write leaves)
+	for n := len(root) - 1; n >= 8; n-- {
+		if bytes.HasSuffix(b, root[:n]) {
+			return append(append([]byte{}, b[:len(b)-n]...), []byte("$ROOT[:"+strconv.Itoa(n)+"]")...)
+		}
+	}
+	return b
+}
+
 func sum(b []byte) string {
 	// FNV-1a 64: cheap, only for the event log
 	h := uint64(14695981039346656037)
@@ -764,7 +783,8 @@ func FSReadFile(name string) ([]byte, error) {
 		return nil, &fs.PathError{Op: "read", Path: name, Err: syscall.EIO}
 	}
 	b, err := os.ReadFile(name)
-	s.logEvent(g, "read "+s.rel(name)+" -> "+errClass(err)+" "+strconv.Itoa(len(b))+" "+sum(b))
+	nb := s.norm(b)
+	s.logEvent(g, "read "+s.rel(name)+" -> "+errClass(err)+" "+strconv.Itoa(len(nb))+" "+sum(nb))
 	return b, err
 }
 
@@ -797,7 +817,7 @@ func FSWriteFile(name string, data []byte, perm os.FileMode) error {
 		s.Killed = true
 		s.Fired["torn_write"]++
 		s.mu.Unlock()
-		s.logEvent(g, "write "+s.rel(name)+" -> TORN at "+strconv.Itoa(cut)+"/"+strconv.Itoa(len(data))+" "+errClass(err))
+		s.logEvent(g, "write "+s.rel(name)+" -> TORN at "+strconv.Itoa(cut)+" "+errClass(err))
 		panic(exitSentinel{})
 	case "error_before":
 		s.mu.Lock()
@@ -810,11 +830,12 @@ func FSWriteFile(name string, data []byte, perm os.FileMode) error {
 		s.mu.Lock()
 		s.Fired["write_error"]++
 		s.mu.Unlock()
-		s.logEvent(g, "write "+s.rel(name)+" -> injected ENOSPC after "+strconv.Itoa(cut)+"/"+strconv.Itoa(len(data)))
+		s.logEvent(g, "write "+s.rel(name)+" -> injected ENOSPC after "+strconv.Itoa(cut))
 		return &fs.PathError{Op: "write", Path: name, Err: syscall.ENOSPC}
 	}
 	err := os.WriteFile(name, data, perm)
-	s.logEvent(g, "write "+s.rel(name)+" -> "+errClass(err)+" "+strconv.Itoa(len(data))+" "+sum(data))
+	nd := s.norm(data)
+	s.logEvent(g, "write "+s.rel(name)+" -> "+errClass(err)+" "+strconv.Itoa(len(nd))+" "+sum(nd))
 	return err
 }
 
